@@ -85,6 +85,19 @@ type bfArr struct {
 }
 
 type bfErr struct{ nonNil bool }
+
+// a constant string (only as the source of a []byte conversion or of append(bytes, s...))
+type bfStr struct{ s string }
+
+// a function value with its captured variables, and a standard slice iterator (slices.All / Backward / Values)
+type bfClosure struct {
+	fn   *ssa.Function
+	bind []any
+}
+type bfIter struct {
+	kind string // "All", "Backward", "Values"
+	sl   bfSlice
+}
 type bfTuple []any
 type bfUnknown struct{ why string }
 
@@ -113,7 +126,13 @@ type bfMachine struct {
 	steps, maxSteps int
 	nextObj         int
 	forks           int
+	// hook: rule-supplied model of a call the machine does not follow (an opaque hash: the rule logs the input and
+	// hands out a fresh symbolic value)
+	hook func(callee *ssa.Function, args []any, heap bfHeap) (any, bool)
 }
+
+// rawElem: element i of an array object as stored (nil: never written, i.e. the element type's zero value).
+func rawElem(heap bfHeap, obj, i int) any { return heap[obj][i] }
 
 func bfWidth(t types.Type) (uint8, bool, bool) {
 	b, ok := t.Underlying().(*types.Basic)
@@ -494,12 +513,18 @@ func (m *bfMachine) value(fr *bfFrame, v ssa.Value) any {
 			if _, isSl := c.Type().Underlying().(*types.Slice); isSl {
 				return bfSlice{}
 			}
+			if _, isPtr := c.Type().Underlying().(*types.Pointer); isPtr {
+				return bfPtr{obj: 0, field: -1}
+			}
 			if at, isArr := c.Type().Underlying().(*types.Array); isArr {
 				if _, _, isInt := bfWidth(at.Elem()); isInt {
 					return bfArr{n: int(at.Len()), el: map[int]any{}}
 				}
 			}
 			return bfUnknown{"zero value of " + c.Type().String()}
+		}
+		if c.Value.Kind() == constant.String {
+			return bfStr{constant.StringVal(c.Value)}
 		}
 		w, s, ok := bfWidth(c.Type())
 		if !ok {
@@ -547,6 +572,68 @@ func (m *bfMachine) call(fn *ssa.Function, args []any, heap bfHeap, depth int) [
 		}
 	}
 	return m.runFrom(fr, heap, fn.Blocks[0], 0, nil, depth)
+}
+
+// callClosure runs a closure with its captured variables bound.
+func (m *bfMachine) callClosure(clo bfClosure, args []any, heap bfHeap, depth int) []bfOutcome {
+	if depth > 12 {
+		return m.fail(heap, "closure nesting too deep", false)
+	}
+	fr := &bfFrame{fn: clo.fn, vals: map[ssa.Value]any{}}
+	for i, p := range clo.fn.Params {
+		if i < len(args) {
+			fr.vals[p] = args[i]
+		}
+	}
+	for i, fv := range clo.fn.FreeVars {
+		if i < len(clo.bind) {
+			fr.vals[fv] = clo.bind[i]
+		}
+	}
+	return m.runFrom(fr, heap, clo.fn.Blocks[0], 0, nil, depth)
+}
+
+// iterate drives a yield closure over the elements of a slice the way slices.All / Backward / Values do:
+// in order (Backward: from the last element), stopping when the closure returns false.
+func (m *bfMachine) iterate(it bfIter, clo bfClosure, heap bfHeap, depth int) []bfOutcome {
+	n := it.sl.hi - it.sl.lo
+	var step func(k int, heap bfHeap) []bfOutcome
+	step = func(k int, heap bfHeap) []bfOutcome {
+		if k >= n {
+			return []bfOutcome{{results: nil, heap: heap}}
+		}
+		i := k
+		if it.kind == "Backward" {
+			i = n - 1 - k
+		}
+		el := bfElem(heap, it.sl.obj, it.sl.lo+i)
+		args := []any{bfConst(uint64(i), 64, true), el}
+		if it.kind == "Values" {
+			args = []any{el}
+		}
+		var all []bfOutcome
+		for _, o := range m.callClosure(clo, args, heap, depth) {
+			if o.fault != "" {
+				all = append(all, o)
+				continue
+			}
+			more, isInt := bfInt{}, false
+			if len(o.results) == 1 {
+				more, isInt = o.results[0].(bfInt)
+			}
+			c, conc := more.concrete()
+			switch {
+			case !isInt || !conc:
+				all = append(all, m.fail(o.heap, "iteration continues on a value the domain cannot decide", false)...)
+			case c == 0:
+				all = append(all, bfOutcome{results: nil, heap: o.heap})
+			default:
+				all = append(all, step(k+1, o.heap)...)
+			}
+		}
+		return all
+	}
+	return step(0, heap)
 }
 
 func (m *bfMachine) fail(heap bfHeap, why string, panics bool) []bfOutcome {
@@ -689,6 +776,11 @@ func (m *bfMachine) eval(fr *bfFrame, heap bfHeap, v ssa.Value) (any, string, bo
 				return bfBool((ea.nonNil == eb.nonNil) == (x.Op == token.EQL)), "", false
 			}
 		}
+		if pa, ok := a.(bfPtr); ok {
+			if pb, ok := b.(bfPtr); ok && (x.Op == token.EQL || x.Op == token.NEQ) && pa.obj >= 0 && pb.obj >= 0 {
+				return bfBool((pa == pb) == (x.Op == token.EQL)), "", false
+			}
+		}
 		ia, ok1 := a.(bfInt)
 		ib, ok2 := b.(bfInt)
 		if !ok1 || !ok2 {
@@ -714,6 +806,19 @@ func (m *bfMachine) eval(fr *bfFrame, heap bfHeap, v ssa.Value) (any, string, bo
 						out.el[k] = m.value(fr, e)
 					}
 					return out, "", false
+				}
+			}
+			if p.obj == 0 {
+				return nil, "nil pointer dereference", true
+			}
+			if g, isG := x.X.(*ssa.Global); isG {
+				// a package-level []byte constant ([]byte("…") assigned once by the initialiser, never written through)
+				if str, ok := globalBytesLiteral(g); ok {
+					obj := m.newArray(heap, len(str))
+					for i := 0; i < len(str); i++ {
+						heap[obj][i] = bfConst(uint64(str[i]), 8, false)
+					}
+					return bfSlice{obj: obj, lo: 0, hi: len(str), cp: len(str)}, "", false
 				}
 			}
 			if p.obj < 0 {
@@ -747,6 +852,14 @@ func (m *bfMachine) eval(fr *bfFrame, heap bfHeap, v ssa.Value) (any, string, bo
 			if _, isSl := x.Type().Underlying().(*types.Slice); isSl {
 				return bfSlice{}, "", false
 			}
+			if _, isPtr := x.Type().Underlying().(*types.Pointer); isPtr {
+				return bfPtr{obj: 0, field: -1}, "", false
+			}
+			if at, isArr := x.Type().Underlying().(*types.Array); isArr {
+				if _, _, isInt := bfWidth(at.Elem()); isInt {
+					return bfArr{n: int(at.Len()), el: map[int]any{}}, "", false
+				}
+			}
 			return bfUnknown{"load of an unset cell"}, "", false
 		case token.NOT:
 			if i, ok := a.(bfInt); ok {
@@ -779,6 +892,13 @@ func (m *bfMachine) eval(fr *bfFrame, heap bfHeap, v ssa.Value) (any, string, bo
 				return i.trunc(w, s), "", false
 			}
 		}
+		if str, ok := a.(bfStr); ok && isByteSlice(x.Type()) {
+			obj := m.newArray(heap, len(str.s))
+			for i := 0; i < len(str.s); i++ {
+				heap[obj][i] = bfConst(uint64(str.s[i]), 8, false)
+			}
+			return bfSlice{obj: obj, lo: 0, hi: len(str.s), cp: len(str.s)}, "", false
+		}
 		return bfUnknown{"conversion to " + x.Type().String()}, "", false
 	case *ssa.ChangeType:
 		return m.value(fr, x.X), "", false
@@ -799,9 +919,20 @@ func (m *bfMachine) eval(fr *bfFrame, heap bfHeap, v ssa.Value) (any, string, bo
 			return bfUnknownInt(w, s), "", false
 		}
 		return bfUnknown{"component of an unmodelled tuple"}, "", false
+	case *ssa.MakeClosure:
+		fn, ok := x.Fn.(*ssa.Function)
+		if !ok {
+			return bfUnknown{"closure over an unknown function"}, "", false
+		}
+		bind := make([]any, len(x.Bindings))
+		for i, b := range x.Bindings {
+			bind[i] = m.value(fr, b)
+		}
+		return bfClosure{fn: fn, bind: bind}, "", false
 	case *ssa.Alloc:
 		if at, ok := x.Type().Underlying().(*types.Pointer).Elem().Underlying().(*types.Array); ok {
-			if _, _, isInt := bfWidth(at.Elem()); isInt && at.Len() <= 1<<16 {
+			_, isPtrElem := at.Elem().Underlying().(*types.Pointer)
+			if _, _, isInt := bfWidth(at.Elem()); (isInt || isPtrElem) && at.Len() <= 1<<16 {
 				return bfPtr{obj: m.newArray(heap, int(at.Len())), field: -1}, "", false
 			}
 		}
@@ -898,7 +1029,11 @@ func (m *bfMachine) eval(fr *bfFrame, heap bfHeap, v ssa.Value) (any, string, bo
 			return bfUnknown{"make with a size the partition does not determine"}, "", false
 		}
 		if !isByteSlice(x.Type()) {
-			return bfUnknown{"make of a non-byte slice"}, "", false
+			st, _ := x.Type().Underlying().(*types.Slice)
+			_, isPtr := st.Elem().Underlying().(*types.Pointer)
+			if _, _, isInt := bfWidth(st.Elem()); !isPtr && !isInt {
+				return bfUnknown{"make of a slice of unmodelled elements"}, "", false
+			}
 		}
 		obj := m.newArray(heap, int(k))
 		return bfSlice{obj: obj, lo: 0, hi: int(l), cp: int(k)}, "", false
@@ -966,7 +1101,15 @@ func (m *bfMachine) doCall(fr *bfFrame, heap bfHeap, x *ssa.Call, depth int) []b
 		case "append":
 			dst, ok1 := args[0].(bfSlice)
 			src, ok2 := args[1].(bfSlice)
-			if !ok1 || !ok2 || !isByteSlice(x.Call.Args[0].Type()) {
+			if str, isStr := args[1].(bfStr); isStr && ok1 {
+				// append(bytes, "literal"...)
+				obj := m.newArray(heap, len(str.s))
+				for i := 0; i < len(str.s); i++ {
+					heap[obj][i] = bfConst(uint64(str.s[i]), 8, false)
+				}
+				src, ok2 = bfSlice{obj: obj, lo: 0, hi: len(str.s), cp: len(str.s)}, true
+			}
+			if !ok1 || !ok2 {
 				break
 			}
 			n, k := dst.hi-dst.lo, src.hi-src.lo
@@ -975,16 +1118,22 @@ func (m *bfMachine) doCall(fr *bfFrame, heap bfHeap, x *ssa.Call, depth int) []b
 				// grows: a fresh backing array (capacity rounded up as the runtime may)
 				obj := m.newArray(heap, n+k)
 				for i := 0; i < n; i++ {
-					heap[obj][i] = bfElem(heap, dst.obj, dst.lo+i)
+					if v := rawElem(heap, dst.obj, dst.lo+i); v != nil {
+						heap[obj][i] = v
+					}
 				}
 				out = bfSlice{obj: obj, lo: 0, hi: n, cp: n + k}
 			}
-			vals := make([]bfInt, k)
+			vals := make([]any, k)
 			for i := 0; i < k; i++ {
-				vals[i] = bfElem(heap, src.obj, src.lo+i)
+				vals[i] = rawElem(heap, src.obj, src.lo+i)
 			}
 			for i := 0; i < k; i++ {
-				heap[out.obj][out.hi+i] = vals[i]
+				if vals[i] == nil {
+					delete(heap[out.obj], out.hi+i)
+				} else {
+					heap[out.obj][out.hi+i] = vals[i]
+				}
 			}
 			out.hi += k
 			return one(out)
@@ -995,12 +1144,16 @@ func (m *bfMachine) doCall(fr *bfFrame, heap bfHeap, x *ssa.Call, depth int) []b
 				break
 			}
 			k := min(dst.hi-dst.lo, src.hi-src.lo)
-			vals := make([]bfInt, k)
+			vals := make([]any, k)
 			for i := 0; i < k; i++ {
-				vals[i] = bfElem(heap, src.obj, src.lo+i)
+				vals[i] = rawElem(heap, src.obj, src.lo+i)
 			}
 			for i := 0; i < k && dst.obj != 0; i++ {
-				heap[dst.obj][dst.lo+i] = vals[i]
+				if vals[i] == nil {
+					delete(heap[dst.obj], dst.lo+i)
+				} else {
+					heap[dst.obj][dst.lo+i] = vals[i]
+				}
 			}
 			return one(bfConst(uint64(k), 64, true))
 		case "min", "max":
@@ -1020,9 +1173,35 @@ func (m *bfMachine) doCall(fr *bfFrame, heap bfHeap, x *ssa.Call, depth int) []b
 	}
 	callee := x.Call.StaticCallee()
 	if callee == nil {
+		// a function value: a closure made here, or a standard slice iterator driven with a closure (range over func)
+		switch fv := m.value(fr, x.Call.Value).(type) {
+		case bfClosure:
+			if bfIsModuleFunc(fv.fn) || fv.fn.Synthetic != "" && len(fv.fn.Blocks) > 0 {
+				return m.callClosure(fv, args, heap, depth+1)
+			}
+		case bfIter:
+			if clo, ok := args[0].(bfClosure); ok && len(args) == 1 && len(clo.fn.Blocks) > 0 {
+				return m.iterate(fv, clo, heap, depth+1)
+			}
+		}
 		return unknownResult()
 	}
+	if m.hook != nil {
+		if v, ok := m.hook(callee, args, heap); ok {
+			return one(v)
+		}
+	}
 	full := callee.String()
+	if o := callee.Origin(); o != nil {
+		full = o.String()
+	}
+	switch full {
+	case "slices.All", "slices.Backward", "slices.Values":
+		if sl, ok := args[0].(bfSlice); ok && len(args) == 1 {
+			return one(bfIter{kind: strings.TrimPrefix(full, "slices."), sl: sl})
+		}
+	}
+	full = callee.String()
 	switch {
 	case full == "errors.New" || full == "fmt.Errorf":
 		return one(bfErr{true})
